@@ -11,7 +11,7 @@ static spif_charptr_t my_builtin(spif_charptr_t p) { (void) p; return (spif_char
 
 /* ------------------------------------------------------------------ (1) hostile files */
 enum { H_PCT, H_PCT_SP, H_PCT_X, H_INCLUDE, H_INCLUDE_NX, H_BEGIN, H_BEGIN_SP, H_END, H_E, H_B, H_L20478, H_L20479, H_L20480, H_L20481, H_L41000, H_NUL, H_BSLASH, H_DOLLAR_BRACE,
-       H_FF, H_GET_OPEN, H_QUOTE, H_BEGIN_A, H_TEXT, H_PUT, NHOST };
+       H_FF, H_GET_OPEN, H_QUOTE, H_BEGIN_A, H_TEXT, H_PUT, H_PUT_KV, H_GET_KD, H_GET_K, H_PUT_GROW, H_NESTED_GROW, NHOST };
 static size_t hostile_line(int k, char *out)          /* returns length; no newline */
 {
     static const int longs[5] = { 20478, 20479, 20480, 20481, 41000 };
@@ -29,11 +29,16 @@ static size_t hostile_line(int k, char *out)          /* returns length; no newl
     case H_QUOTE: return (size_t) sprintf(out, "begin '");
     case H_BEGIN_A: return (size_t) sprintf(out, "begin A");
     case H_TEXT: return (size_t) sprintf(out, "text ~ $V");
+    case H_PUT_KV: return (size_t) sprintf(out, "%%put(k v1)");
+    case H_GET_KD: return (size_t) sprintf(out, "v %%get(k d)");
+    case H_GET_K: return (size_t) sprintf(out, "v %%get(k)");
+    case H_PUT_GROW: return (size_t) sprintf(out, "%%put(d $L$L)");                       /* the argument grows from 4 to 80 characters on expansion */
+    case H_NESTED_GROW: return (size_t) sprintf(out, "v %%get(q %%random($L)-t)z");
     default: return (size_t) sprintf(out, "%%put(k");
     }
 }
 static const char *HN[NHOST] = { "%", "% ", "%x", "%include", "%include /nonexistent", "begin", "begin ", "end", "e", "b", "<20478 x L>", "<20479 x L>", "<20480 x L>", "<20481 x L>", "<41000 x L>", "ab<NUL>cd",
-                                 "ab\\", "x ${", "<0xFF 0xFF 0x20 0xFE>", "v %get(", "begin '", "begin A", "text ~ $V", "%put(k" };
+                                 "ab\\", "x ${", "<0xFF 0xFF 0x20 0xFE>", "v %get(", "begin '", "begin A", "text ~ $V", "%put(k", "%put(k v1)", "v %get(k d)", "v %get(k)", "%put(d $L$L)", "v %get(q %random($L)-t)z" };
 enum { V_NORMAL, V_NO_FINAL_NL, V_MAGIC_NO_GT, V_MAGIC_LONG, NVAR };
 static int g_n;
 static void h_desc(uint64_t idx, void *ctx, char *b, size_t n)
@@ -186,10 +191,10 @@ static void t_case(uint64_t idx, void *ctx)
 }
 
 /* ------------------------------------------------------------------ (4) lifecycle */
-typedef struct { int init, nctx, nbi, kset, cycles; long base; int first_get_ok; } ls_t;
-enum { O_INIT, O_REG_CTX, O_REG_BI, O_PARSE, O_PUT, O_GET, O_FREE, NLOPS };
-static const char *LN[NLOPS] = { "init", "register_context", "register_builtin", "parse(file with %include, blocks, $V)", "expand %put(k v)", "expand x%get(k)y", "free" };
-static char g_lfile[300], g_linc[300];
+typedef struct { int init, nctx, nbi, kset, cycles, nullreg, scans; long base; int first_get_ok; } ls_t;
+enum { O_INIT, O_REG_CTX, O_REG_BI, O_PARSE, O_PUT, O_GET, O_FREE, O_REG_NULL, O_DIRSCAN, NLOPS };
+static const char *LN[NLOPS] = { "init", "register_context", "register_builtin", "parse(file with %include, blocks, $V)", "expand %put(k v)", "expand x%get(k)y", "free", "register_context(\"null\") again", "expand %dirscan(dir with one file)" };
+static char g_lfile[300], g_linc[300], g_ldir[300];
 static void l_name(int i, char *b, size_t n) { snprintf(b, n, "%s", LN[i]); }
 static void *l_fresh(void)
 {
@@ -198,19 +203,24 @@ static void *l_fresh(void)
     static int lpid; if ((int) getpid() != lpid) { lpid = (int) getpid();
         char d[600]; snprintf(g_linc, sizeof g_linc, "%s/linc-%d.cfg", scratch(), (int) getpid()); snprintf(g_lfile, 290, "%s/lmain-%d.cfg", scratch(), (int) getpid());
         snprintf(d, sizeof d, "<verif-1.0>\nincluded $V\n"); write_file(g_linc, d, strlen(d));
+        snprintf(g_ldir, sizeof g_ldir, "%s/ldir-%d", scratch(), (int) getpid()); mkdir(g_ldir, 0700); snprintf(d, sizeof d, "%s/f", g_ldir); write_file(d, "x", 1);
         snprintf(d, sizeof d, "<verif-1.0>\nbegin A\n%%include %s\n%%include /nonexistent/q\nv $V ${V} ~\nend\n%%put(p q)\n", g_linc); write_file(g_lfile, d, strlen(d));
     }
     s->base = mc_live_bytes();
     return s;
 }
-static int l_enabled(void *vs, int op) { ls_t *s = vs; if (op == O_INIT) return !s->init && s->cycles < 2; if (!s->init) return 0; if (op == O_REG_CTX) return s->nctx < 2; if (op == O_REG_BI) return s->nbi < 2; return 1; }
+static int l_enabled(void *vs, int op) { ls_t *s = vs; if (op == O_INIT) return !s->init && s->cycles < 2; if (!s->init) return 0; if (op == O_REG_CTX) return s->nctx < 2; if (op == O_REG_BI) return s->nbi < 2; if (op == O_REG_NULL) return !s->nullreg; if (op == O_DIRSCAN) return s->scans < 1; return 1; }
 static void l_apply(void *vs, int op)
 {
     ls_t *s = vs; const char *shape = LN[op]; char *b;
     mc_set_shape(shape);
     g_env_on = 1; g_allow_fork = 0; g_home = "/h"; g_spawns = 0;
     switch (op) {
-    case O_INIT: spifconf_init_subsystem(); s->init = 1; s->nctx = s->nbi = 0; s->kset = 0; break;
+    case O_INIT: spifconf_init_subsystem(); s->init = 1; s->nctx = s->nbi = 0; s->kset = 0; s->nullreg = 0; s->scans = 0; break;
+    case O_REG_NULL: spifconf_register_context((spif_charptr_t) "null", ctx_handler); s->nullreg = 1; break;        /* replaces the built-in null context, whatever else is registered */
+    case O_DIRSCAN: b = malloc(CONFIG_BUFF); snprintf(b, CONFIG_BUFF, "x%%dirscan(%s)y", g_ldir); spifconf_shell_expand((spif_charptr_t) b);
+        if (strcmp(b, "xf y")) FAIL("spifconf_shell_expand", "model:value", shape, "x%%dirscan(dir)y gave \"%s\"", b);
+        free(b); s->scans++; break;
     case O_REG_CTX: spifconf_register_context((spif_charptr_t) (s->nctx ? "B" : "A"), ctx_handler); s->nctx++; break;
     case O_REG_BI: spifconf_register_builtin(s->nbi ? "mybi2" : "mybi", my_builtin); s->nbi++; break;
     case O_PARSE: { spif_charptr_t r = spifconf_parse((spif_charptr_t) g_lfile, NULL, NULL); if (!r) FAIL("spifconf_parse", "model:return", shape, "returned NULL"); else FREE(r); break; }
@@ -225,7 +235,7 @@ static void l_apply(void *vs, int op)
     g_env_on = 0; g_allow_fork = 1;
     if (g_spawns) FAIL("spifconf", "spawn", shape, "a process was spawned: %s", g_spawn_what);
 }
-static void l_canon(void *vs, char *b, size_t n) { ls_t *s = vs; snprintf(b, n, "init=%d ctx=%d bi=%d k=%d cycles=%d held=%ld", s->init, s->nctx, s->nbi, s->kset, s->cycles, s->init ? 0L : mc_live_bytes() - s->base); }
+static void l_canon(void *vs, char *b, size_t n) { ls_t *s = vs; snprintf(b, n, "init=%d ctx=%d bi=%d k=%d null=%d scans=%d cycles=%d held=%ld", s->init, s->nctx, s->nbi, s->kset, s->nullreg, s->scans, s->cycles, s->init ? 0L : mc_live_bytes() - s->base); }
 static void l_teardown(void *vs)
 {
     ls_t *s = vs;
@@ -284,7 +294,7 @@ int main(int argc, char **argv)
     mc_init("C11", argc, argv);
     int N = (int) mc_arg_int("N", mc_thorough() ? 3 : 2);
     mc_info("alphabet", "(1) files of <= %d lines from %d hostile line kinds x {normal, no final newline, magic without '>', 300-byte magic} + 6 special files; (2) find_file: 10 file lengths x 11 dir choices x 31 pathlist shapes (0..70000 chars); "
-            "(3) spawn-trap positive controls, temp_file: 4 umasks x TMPDIR/TMP set/unset x 4 template lengths x 50 files; (4) lifecycle E1 over {init, register_context, register_builtin, parse, %%put, %%get, free}, 2 cycles; counter sweep 0..300", N, NHOST);
+            "(3) spawn-trap positive controls, temp_file: 4 umasks x TMPDIR/TMP set/unset x 4 template lengths x 50 files; (4) lifecycle E1 over {init, register_context, register_context(null) again, register_builtin, parse, %%put, %%get, %%dirscan, free}, 2 cycles; counter sweep 0..300", N, NHOST);
     mc_guarded("controls", "spawn-trap positive controls: backquote value and %exec(true) must reach the trap; single-quoted backquote must not", spawn_controls, NULL);
     mc_guarded("find_file", "find_file positive control: an existing file is found via dir and via the search path", p_found, NULL);
     mc_e2_level("special_files", 1, 6, s_case, s_desc, NULL);
